@@ -360,7 +360,7 @@ Definition codegen (net : network) (q : query) : option gprog :=
 
 (* ------------------------------------------------------------------ names *)
 (* __generate_mapping__: lower-case, drop every character outside [A-Za-z0-9_]; "" -> "_";
-   get_unique_name appends random digits while the name is taken.  The random suffix is not
+   get_unique_name appends random digits while the name is taken (or reserved).  The random suffix is not
    modelled: valid_mapping is the relation "this list of names is a possible outcome". *)
 Definition is_digit (c : ascii) : bool := let n := nat_of_ascii c in (48 <=? n) && (n <=? 57).
 Definition is_lower (c : ascii) : bool := let n := nat_of_ascii c in (97 <=? n) && (n <=? 122).
@@ -397,7 +397,13 @@ Fixpoint valid_mapping_from (existing : list string) (names mapped : list string
   | n :: ns, m :: ms => unique_name_ok existing (sanitize n) m && valid_mapping_from (existing ++ [m]) ns ms
   | _, _ => false
   end.
-Definition valid_mapping (names mapped : list string) : bool := valid_mapping_from [] names mapped.
+(* identifiers the repaired __generate_mapping__ treats as taken from the start (RESERVED_NAMES in
+   bayesnet/code_generator.py: keywords of Polar's language and symengine constants) *)
+Definition reserved_names : list string :=
+  ["if"; "elif"; "else"; "end"; "while"; "true"; "false"; "types"; "e"; "pi"; "oo"; "zoo"; "nan"; "inf"].
+Definition valid_mapping (names mapped : list string) : bool := valid_mapping_from reserved_names names mapped.
+(* the rule before the repair: nothing reserved *)
+Definition valid_mapping_old_rule (names mapped : list string) : bool := valid_mapping_from [] names mapped.
 
 (* ------------------------------------------------------------------ decidable equality
    (used by the correspondence check to compare the model's output with Polar's) *)
